@@ -1585,7 +1585,7 @@ func (d *decoder[T]) structFieldNotFound(index int, rvkencname string) {
 	if d.h.ErrorIfNoField {
 		if index >= 0 {
 			halt.errorInt("no matching struct field found when decoding stream array at index ", int64(index))
-		} else if rvkencname != "" {
+		} else {
 			halt.errorStr2("no matching struct field found when decoding stream map with key ", rvkencname)
 		}
 	}
